@@ -234,6 +234,45 @@ def gauge_case(ctx, idx, rng):
     ctx.close('gauge.rotated-reference-consistent', np.abs(refs.dense_operator(h_rot.A) - R_rot).max(), 1e-10 * sc, 'explicit MPO of the rotated coefficients != Fock reference', detail)
 
 
+def gauge_large_case(ctx, idx, rng):
+    """The gauge transform on chains beyond the dense reach (L = 13..15, where the explicit builder switches off its own consistency check): the transformed MPO
+    and the MPO of the rotated coefficients must have the same matrix elements between random entangled probe states (own transfer-matrix contraction)."""
+    L = int(rng.integers(13, 16))
+    i = int(rng.integers(0, L - 1))
+    ukind = ('random', 'swap', 'phases', 'rotation')[idx % 4]
+    t = rng.normal(size=(L, L)) + 1j * rng.normal(size=(L, L))
+    v = (rng.normal(size=(L, L, L, L)) + 1j * rng.normal(size=(L, L, L, L))) * (rng.random(size=(L, L, L, L)) < 0.03)
+    u2 = unitary(rng, ukind)
+    ctx.case(('gauge-large', f'L{L}', ukind), sample={'L': L, 'i': i, 'u': u2}, info={'L': L, 'i': i, 'u': u2})
+    detail = {'L': L, 'i': i, 'u': u2}
+    u = np.identity(L, dtype=complex)
+    u[i:i + 2, i:i + 2] = u2
+    t_rot = np.einsum('ca,db,cd->ab', u, u.conj(), t)
+    v_rot = np.einsum('ea,fb,gc,hd,efgh->abcd', u, u, u.conj(), u.conj(), v)
+    h = ptn.molecular_hamiltonian_mpo(t, v, optimize=False)
+    h_rot = ptn.molecular_hamiltonian_mpo(t_rot, v_rot, optimize=False)
+    h.A[i] = np.copy(h_rot.A[i])
+    h.A[i + 1] = np.copy(h_rot.A[i + 1])
+    out = ptn.molecular_hamiltonian_orbital_gauge_transform(h, u2, i)
+    if not ctx.ok('gauge.returns-pair', isinstance(out, tuple) and len(out) == 2, 'must return (v_l, v_r)', detail):
+        return
+    v_l, v_r = out
+    ctx.close('gauge.v_l-unitary', np.abs(v_l.conj().T @ v_l - np.identity(len(v_l))).max(), 1e-11, 'v_l not unitary', detail)
+    ctx.close('gauge.v_r-unitary', np.abs(v_r.conj().T @ v_r - np.identity(len(v_r))).max(), 1e-11, 'v_r not unitary', detail)
+    A = list(h.A)
+    A[i] = np.einsum('ce,stef->stcf', v_l, A[i])
+    A[i + 1] = np.einsum('fe,stce->stcf', v_r, A[i + 1])
+    worst, sc = 0.0, 0.0
+    for _ in range(4):
+        bra = refs.random_probe(rng, 2, L, D=2)
+        ket = refs.random_probe(rng, 2, L, D=2)
+        a = refs.mpo_element(bra, A, ket)
+        b = refs.mpo_element(bra, h_rot.A, ket)
+        worst = max(worst, abs(a - b))
+        sc = max(sc, abs(a), abs(b))
+    ctx.close('gauge.transforms-to-rotated-operator[probes]', worst, 1e-9 * max(sc, 1e-300), 'gauge-transformed MPO and MPO of the rotated coefficients differ in their matrix elements', detail)
+
+
 SPEC = {
     'id': 'C07',
     'rule': ('spinless: every L in 1..7 (thorough 1..9) x coefficient kinds {real, complex, symmetric (gint cancels), Hermitian, zero-padded with an '
@@ -249,6 +288,7 @@ SPEC = {
         Workload('spinless', spinless_case, quick=7 * len(KINDS) * 2, thorough=9 * len(KINDS) * 20),
         Workload('spin', spin_case, quick=5 * len(KINDS), thorough=6 * len(KINDS) * 8),
         Workload('gauge', gauge_case, quick=70, thorough=2800),
+        Workload('gauge-large', gauge_large_case, quick=3, thorough=96),
     ],
     'shards': {'quick': 4, 'thorough': 16},
     'watchdog_s': {'quick': 900, 'thorough': 7200},
